@@ -39,22 +39,11 @@ def run(pid, tier, replay=None):
         files_all += glob.glob(sc.path("it-%s-*.ndjson" % kind))
     files = vlib.drop_partial_lines(sorted(files_all))
     spec = os.path.join(specdir, "TreeIterTrace.tla"); cfgt = os.path.join(specdir, "TreeIterTrace.cfg")
-    results = vlib.validate_traces(spec, cfgt, files, sc, timeout=3000, heap="3g")
-    nev = 0
-    for f, acc, tr in results:
-        if acc:
-            nev += max(0, tr.distinct - 1); continue
-        if tr.error and "TRACE-POS" not in tr.out and not tr.violation:
-            raise Broken("trace validation failed to run on %s: %s" % (f, tr.error))
-        f2, acc2, tr2 = vlib.validate_traces(spec, cfgt, [f], sc, timeout=3000)[0]
-        if acc2:
-            ck.notes.append("non-repeating rejection ignored"); continue
-        ev = offending_event(f, tr2)
-        kind = ev.get("kind") if ev else "?"
-        if ev:
-            ev = {k: ev[k] for k in ev if k != "tears"} | {"tears": ev.get("tears", [])[:3]}
-        ck.violation("trace:iter-%s" % kind, {"what": "TLC rejected the sequences produced by the real iterators / tear-down for this shape",
-                                                "event": ev, "tlc": vlib.rejected_detail(tr2)["tail"][-500:]})
+    nev, bad = vlib.validate_collect(spec, cfgt, files, sc)
+    for f, idx, ev in bad:
+        kind = ev.get("kind", "?")
+        ev = {k: ev[k] for k in ev if k != "tears"} | {"tears": ev.get("tears", [])[:3]}
+        ck.violation("trace:iter-%s" % kind, {"what": "TLC rejected the sequences produced by the real iterators / tear-down for this shape", "event": ev})
     ck.cov["traces_validated_against_impl"] += nev
     ck.part("trace_validation", batches=len(files), events_accepted=nev)
     if files:
